@@ -404,6 +404,9 @@ PLAIN_SHAPES = [s.replace("C1", _C1).replace("C2", _C2) for s in [
     "struct S<T> where T: Clone { a: H<T, 1> }", "struct S<T> where T: Clone, { a: H<T, 1> }", "struct S<'a, T: 'a>(H<&'a T, 1>);", "struct S<'a, 'b: 'a, T: 'a + 'b>(H<&'a &'b T, 1>);",
     "enum S<T> { A(H<T, 1>), B }", "enum S<'a, T: 'a, const N: usize> { A(H<&'a T, N>) }", "enum S<T, U> { A(H<T, 1>), B { b: H<U, 2> } }",
     "struct S<T>(H<T, 1>, H<T, 2>);", "struct S<T, U> { a: H<T, 1>, b: H<U, 2> }",
+    # names outside the usual casing conventions, the lint allowed on the item by the user (as for field names kept from a wire format)
+    "#[allow(non_snake_case)] struct S { fooBar: C1 }", "#[allow(non_snake_case)] struct S { fooBar: C1, BazQux: C2 }", "#[allow(non_snake_case)] enum S { A { fooBar: C1 }, B }",
+    "#[allow(non_snake_case)] enum S { A { fooBar: C1, BazQux: C2 } }",
     # the deriving type itself deprecated: the expansion names it in every impl header and body
     "#[deprecated] struct S(C1);", "#[deprecated] struct S { a: C1 }", "#[deprecated] struct S(C1, C2);", "#[deprecated] enum S { A(C1), B }", "#[deprecated] enum S { A = 1, B }",
     "#[deprecated] enum S { A(C1), B(C2) }", "#[deprecated] struct S<T>(H<T, 1>);", "#[deprecated] enum S { A { a: C1, b: C2 } }",
